@@ -611,7 +611,8 @@ example : (run demoLater (demoA.copyKw 0 demoKw)).posOf 1 = [⟨6, 6, 6⟩] ∧
     (run demoLater (demoA.copyKw 0 demoKw)).intsOf 3 .a0 = some [1, 2, 3] := by decide
 example : ∀ op ∈ demoLater, ∀ i ∈ mentions op, ¬ IsNew demoA.f 0 i := by decide
 -- the containers of the copy are new ones
-example : ((demoA.copyKw 0 demoKw).na 1).adr .pos = some 2 ∧ ((demoA.copyKw 0 demoKw).na 3).adr .pos = some 24 := by decide
+example : ((demoA.copyKw 0 demoKw).na 1).adr .pos = some 3 ∧ ((demoA.copyKw 0 demoKw).na 3).adr .pos = some 27 ∧
+    ((demoA.copyKw 0 demoKw).na 0).adr .kids = some 2 ∧ ((demoA.copyKw 0 demoKw).na 2).adr .kids = some 14 := by decide
 
 end Attr
 
